@@ -139,13 +139,13 @@ Print Assumptions C20_send_ge_2_segments.
     gone, and after any proper prefix of the arrivals nothing was queued or
     signalled. *)
 Theorem C20_reassembly_any_order_once :
-  forall (mtu xid conv : N) (st : rx) (data : bytes) (p : list bytes),
+  forall (mtu xid : N) (conv : chan) (st : rx) (data : bytes) (p : list bytes),
   send_okb mtu xid data = true ->
   plookup (conv, xid) (r_prog st) = None ->
   Permutation p (send_transfer (Some mtu) xid data) ->
   let fin := fold_left (recv_frame conv) p st in
   r_queue fin = r_queue st ++ [(r_next st, data)]
-  /\ r_signals fin = r_signals st ++ [(r_next st, blen data)]
+  /\ r_signals fin = r_signals st ++ [(r_next st, blen data, c_peer conv)]
   /\ plookup (conv, xid) (r_prog fin) = None
   /\ (forall p1 p2 : list bytes, p = p1 ++ p2 -> p2 <> [] ->
         r_queue (fold_left (recv_frame conv) p1 st) = r_queue st
@@ -155,13 +155,13 @@ Print Assumptions C20_reassembly_any_order_once.
 
 (** The same for any hint list. *)
 Theorem C20_reassembly_any_hints :
-  forall (hs : list hint) (mtu xid conv : N) (st : rx) (data : bytes) (p : list bytes),
+  forall (hs : list hint) (mtu xid : N) (conv : chan) (st : rx) (data : bytes) (p : list bytes),
   xfer_okb hs mtu xid data = true ->
   plookup (conv, xid) (r_prog st) = None ->
   Permutation p (send_transfer_h hs (Some mtu) xid data) ->
   let fin := fold_left (recv_frame conv) p st in
   r_queue fin = r_queue st ++ [(r_next st, data)]
-  /\ r_signals fin = r_signals st ++ [(r_next st, blen data)]
+  /\ r_signals fin = r_signals st ++ [(r_next st, blen data, c_peer conv)]
   /\ plookup (conv, xid) (r_prog fin) = None
   /\ (forall p1 p2 : list bytes, p = p1 ++ p2 -> p2 <> [] ->
         r_queue (fold_left (recv_frame conv) p1 st) = r_queue st
@@ -223,9 +223,9 @@ Print Assumptions C20_tie_loop_step.
 Theorem C20_note_end_index_zero_never_completes :
   let f := seg_frame (xfer_hints 3) 9 (0, [1; 2; 3], true) in
   decode_frame f = Some (mkFrame [mk_seg (xfer_hints 3) true 9 0 [1; 2; 3]] [])
-  /\ queued (recv_frame 1 rx_init f) = []
-  /\ map (fun e => (fst e, x_end (snd e), x_segs (snd e))) (r_prog (recv_frame 1 rx_init f))
-     = [((1, 9), Some 0, [(0, [1; 2; 3])])].
+  /\ queued (recv_frame chan1 rx_init f) = []
+  /\ map (fun e => (fst e, x_end (snd e), x_segs (snd e))) (r_prog (recv_frame chan1 rx_init f))
+     = [((chan1, 9), Some 0, [(0, [1; 2; 3])])].
 Proof. exact note_end_index_zero_never_completes. Qed.
 Print Assumptions C20_note_end_index_zero_never_completes.
 
@@ -233,7 +233,7 @@ Theorem C20_note_zero_length_bundle_not_queued :
   send_transfer None 0 [] = [[2; 0; 0; 0]]
   /\ decode_frame [2; 0; 0; 0] = Some (mkFrame [mk_bundle []] [])
   /\ view (mk_bundle []) = COther
-  /\ queued (recv_frame 1 rx_init [2; 0; 0; 0]) = [].
+  /\ queued (recv_frame chan1 rx_init [2; 0; 0; 0]) = [].
 Proof. exact note_zero_length_bundle_not_queued. Qed.
 Print Assumptions C20_note_zero_length_bundle_not_queued.
 
